@@ -693,6 +693,10 @@ def m_is_set(m):
 
 
 def push_char_or_str(eng, out, c):
+    if type(c) is Ref:
+        v = c.get()
+        if type(v) is int or is_sym(v):
+            c = v            # &char (e.g. `chars.iter().collect::<String>()`)
     t = type(c)
     if t is int:
         out.extend(chr(c).encode('utf-8'))
